@@ -192,7 +192,7 @@ func (w *qWorld) onAnswerFailed(co *consumer, d *delivery, kind string) {
 		return
 	}
 	cm := w.chans[co.ck]
-	if cm == nil || cm.VoidStep >= d.Step || !cm.Exists {
+	if cm == nil || cm.VoidStep >= d.Step || !cm.Exists || cm.Unordered {
 		return
 	}
 	if lastDel(d.mc) != d {
@@ -256,15 +256,30 @@ func (w *qWorld) resolveAnswers() {
 	}
 	// stale commands must have failed (checked for single-operation steps only)
 	for _, s := range w.stale {
-		if s.step != w.epoch || s.burst {
+		if s.step != w.epoch {
 			continue
 		}
-		if s.co.Dead {
+		if s.burst || s.co.Dead {
+			// outcome not checked; an accepted FIN still finishes the message
+			if !s.failed && s.kind == "FIN" {
+				s.d.mc.finMaybe = true
+			}
 			continue
 		}
 		if !s.failed {
-			w.violate("C02", "non-holder-answer-accepted", "%s: %s for %s accepted although the message is held by %v",
-				s.co.cl.Name, s.kind, s.d.mc.pub.ID, holderName(s.holderBefore))
+			if s.kind == "FIN" {
+				s.d.mc.finMaybe = true // somebody's copy of it was finished
+			}
+			if cm := w.chans[s.co.ck]; cm != nil {
+				cm.Tainted = true
+			}
+			// only a connection without output buffering has certainly seen every
+			// frame nsqd sent it; otherwise the command may concern a delivery
+			// that still sits in the buffer
+			if cm := w.chans[s.co.ck]; s.co.Unbuffered && cm != nil && !cm.Unordered {
+				w.violate("C02", "non-holder-answer-accepted", "%s: %s for %s accepted although the message is held by %v",
+					s.co.cl.Name, s.kind, s.d.mc.pub.ID, holderName(s.holderBefore))
+			}
 		} else {
 			w.rc.Probe("stale_refused")
 			if s.co.cl.Closed() {
@@ -460,13 +475,13 @@ func (w *qWorld) onMessage(co *consumer, f Frame) {
 	}
 
 	// ---- C02: FIN is final
-	ghost := false
-	if prev != nil && prev.cons == co && prev.Answer != "" {
-		// the frame may already have been in this connection's output buffer
-		// when the client sent its answer (which names the message by id, so
-		// the answer may have been applied to this very delivery)
-		if sl, bounded := co.slack(); !bounded || !f.At.After(prev.AnsAt.Add(sl)) {
-			ghost = true
+	// Commands name a message by id. If this connection sent a command for
+	// this id while this frame may still have been in its output buffer, the
+	// command may have been applied to this very delivery ("ghost").
+	ghost, touchGhost := false, false
+	if T, ok := mc.cmdAt[co]; ok {
+		if sl, bounded := co.slack(); !bounded || !f.At.After(T.Add(sl)) {
+			ghost, touchGhost = true, true
 			rc.Probe("ghost_delivery")
 		}
 	}
@@ -492,8 +507,8 @@ func (w *qWorld) onMessage(co *consumer, f Frame) {
 				}
 			}
 			for _, o := range w.cons {
-				if _, bounded := o.slack(); !bounded && o.ck == cm.Key && o.Subscribed && (!o.Dead || o.DeadStep >= prevStep) {
-					ends += 1 << 20 // frames may sit unseen in its output buffer
+				if !o.Unbuffered && o.ck == cm.Key && o.Subscribed && (!o.Dead || o.DeadStep >= prevStep) {
+					ends += 1 << 20 // a delivery may sit unseen in its output buffer (and be answered by id before it is seen)
 				}
 			}
 			if int(wm.Attempts-exp) <= ends {
@@ -508,7 +523,7 @@ func (w *qWorld) onMessage(co *consumer, f Frame) {
 	}
 	// ---- C02 / C04: not before REQ delay or timeout
 	sameLife := prev != nil && prev.lifetime == w.lifetime
-	if prev != nil && !prev.Voided && sameLife && !prev.maybeAnswered && !cm.Unordered {
+	if prev != nil && !prev.Voided && sameLife && !prev.maybeAnswered && !cm.Unordered && !touchGhost {
 		switch {
 		case prev.Answer == "req" && (!prev.AnsKnown || prev.AnsOK):
 			delay := prev.ReqDelay
@@ -588,6 +603,11 @@ func (w *qWorld) onMessage(co *consumer, f Frame) {
 		rc.Probe("buffered_frame_of_discarded_message")
 	}
 	mc.dels = append(mc.dels, d)
+	// keep deliveries ordered by attempts (receipt order can differ from send
+	// order when a connection buffers its output without a flush timer)
+	for i := len(mc.dels) - 1; i > 0 && mc.dels[i-1].Att > mc.dels[i].Att && mc.dels[i-1].lifetime == mc.dels[i].lifetime; i-- {
+		mc.dels[i-1], mc.dels[i] = mc.dels[i], mc.dels[i-1]
+	}
 	co.Dels = append(co.Dels, d)
 }
 
@@ -1050,6 +1070,7 @@ func (w *qWorld) drain() {
 		for _, co := range drainers {
 			for _, d := range heldOf(co) {
 				d.Answer, d.AnsAt, d.AnsStep = "fin", time.Now(), w.epoch
+				d.mc.noteCmd(co)
 				co.cl.Cmd("FIN "+d.mc.pub.ID, nil)
 			}
 		}
